@@ -1678,7 +1678,10 @@ pub fn c14(c: &Collector, g: &mut Guard) {
         },
         |c, t, local| {
             local.count("sequence_frame_checks");
-            refine_all(c, "C14", "E2.frame.sequences", t, local);
+            // judged on what DECRC determines (the popped stack and the reinstated cursor state): what
+            // else an unlisted final does - a scroll, an erase, a feature added later - is not C14's
+            // business (C03 owns "unknown finals are consumed without effect")
+            refine(c, "C14", "E2.frame.sequences", t, &[Comp::Saves, Comp::CursorPos, Comp::CursorAttr, Comp::CursorHidden, Comp::Charsets], local);
         },
     );
     // every other operation leaves the stack unchanged
